@@ -59,6 +59,9 @@ func Eval(c Case) evid.Verdict {
 			c2 := c
 			c2.EType, c2.Dir, c2.Then = step.et, step.dir, 0
 			if v2 := eval1(c2); !v2.OK {
+				if v2.Sig == "harness" {
+					return v2
+				}
 				v2.Sig = "after-sibling-etype:" + v2.Sig
 				v2.Msg = fmt.Sprintf("after using the same key octets and usage under etype %d/%d: %s", c.EType, c.Then, v2.Msg)
 				return v2
@@ -96,6 +99,9 @@ func eval1(c Case) evid.Verdict {
 				return evid.Fail(sig, "reference decrypted %x, want %x", got, want)
 			}
 		case "ref2lib":
+			if len(conf) > ref.ConfounderLen(c.EType) {
+				conf = conf[:ref.ConfounderLen(c.EType)]
+			}
 			ct, err := ref.Encrypt(c.EType, key, c.Usage, plain, conf)
 			if err != nil {
 				return evid.Fail("harness", "reference failed to encrypt: %v", err)
@@ -195,7 +201,7 @@ func TestProp(t *testing.T) {
 			n = rapid.SampledFrom([]int{200, 257, 600, 1500, 4099, 70000}).Draw(t, "longlen") // beyond the quantifier: ticket-sized and larger
 		}
 		c.Plain = hex.EncodeToString(kgen.Bytes(t, "plain", n))
-		c.Conf = hex.EncodeToString(kgen.Bytes(t, "conf", ref.ConfounderLen(et)))
+		c.Conf = hex.EncodeToString(kgen.Bytes(t, "conf", 16))
 		var sib []int32
 		for _, o := range ref.ETypes {
 			if o != et && ref.KeyLen(o) == ref.KeyLen(et) {
